@@ -100,7 +100,7 @@ func c02Vlang() *vlang {
 	return c02vl
 }
 
-var c02dials = gen.Dials{MaxDepth: 6, Budget: 60, VarLeaf: 0.25, Bind: 0.3, Fault: 0.01,
+var c02dials = gen.Dials{MaxDepth: 6, Budget: 60, VarLeaf: 0.25, Bind: 0.3, Fault: 0.01, Collide: 0.03,
 	Host: map[string]*gen.Ty{
 		"tick": gen.TFunc(gen.TInt, gen.TInt), "tickb": gen.TFunc(gen.TBool, gen.TBool), "ticks": gen.TFunc(gen.TStr, gen.TStr),
 		"ptick": gen.TFunc(gen.TInt, gen.TInt), "boom": gen.TFunc(gen.TInt, gen.TInt), "hpanic": gen.TFunc(gen.TInt, gen.TInt),
